@@ -141,6 +141,15 @@ check("C04", "exploration",
       "thresholds for the refinement part (1e-5 at the top of the ladder, must at least halve from the bottom).",
       "exhaustive sweep (operator x test variant x trial variant) against the congruence identity")
 
+check("C06", "exploration",
+      "Exhaustive sweep mesh x {Laplace, Helmholtz real/complex, modified Helmholtz} x independently chosen P1/DP1 test and trial "
+      "variants (whole grid, segments, boundary-dof/truncation options, swapped normals) x order pairs: the hypersingular matrix "
+      "against sum_c C_c' V0 C_c -/+ k^2 sum_c N_c' V1 N_c; the Maxwell electric field over SNC x RWG variants against "
+      "-ik sum R_c' V1 R_c - (1/ik) D' V0 D; W*1 = 0 on closed surfaces; complex symmetry of E and H along a singular-order ladder.",
+      "DESIGN.md 4/C06",
+      "Trusted: C, N from geometry; R, D from space.evaluate at element vertices (validated by C09); V0, V1 are the library's own single-layer matrices.",
+      "exhaustive sweep against algebraic decompositions built from reference sparse maps")
+
 ALL = ["C%02d" % i for i in range(1, 21)]
 
 
